@@ -194,6 +194,7 @@ func cmdCheck(args []string) int {
 	l := load()
 	unbound := l.bind()
 	e := newEngine(l)
+	e.curProp = prop
 	fmt.Printf("govc: loaded %d packages; %d contracts bound\n", len(l.spkgs), len(l.bound))
 	inconclusive := []string{}
 	for _, u := range unbound {
@@ -360,7 +361,8 @@ func cmdCheck(args []string) int {
 	}
 	ev := evidence{PropertyID: prop, Tier: *tier, Seed: seed, Level: "proof", WallS: round2(wall), Violations: nViol, Assumptions: assumptions,
 		Coverage: map[string]interface{}{
-			"obligations":              nOb,
+			"obligations":              nOb - len(knownHit),
+			"obligations_including_known_findings": nOb,
 			"discharged":               nDis,
 			"known_findings":           knownHit,
 			"checker_cmd":              "/verif/bin/govc check " + prop + " --tier " + *tier,
